@@ -77,6 +77,12 @@ def check(run, replay_path=None):
     from verif.checks.c07 import run_scenarios
     scenarios = run.pick(ORDER_QUICK, ORDER_THOROUGH)
     run_scenarios(run, scenarios, run.pick(80, 1500), {'wire_in_version_order', 'request_answered'}, prefix='c04')
+    # one round of the retrievability-driven periodic report loop against committing transactions: the copies it sends
+    # are the states of the MdibVersion the report is labelled with
+    periodic = [('P_periodic', 'W_ctx'), ('P_periodic', 'W_metric_m1')]
+    run_scenarios(run, periodic, run.pick(80, 1500),
+                  {'label_is_a_version_that_existed', 'snapshot_content', 'each_at_most_once', 'request_answered'},
+                  prefix='c04p')
     slow_subscriber(run)
     run.assumptions += ['order: one subscriber endpoint with several subscriptions; wire order observed at the loop-back client',
                         'periodic store inspected through PeriodicReportsHandler lists (last 3 entries per kind)']
